@@ -231,6 +231,13 @@ pub fn run(a: &Args, rep: &mut Report) {
             };
             vm.register_helper(1, crate::hlp::hostile(0))?;
             vm.register_helper(2, nested_run_helper)?;
+            // a load the verifier refuses (for the fixed VM: with smaller offsets than the ones in
+            // force) must leave the context as it was - offsets and internal buffer included
+            if c.pkts[0] % 3 == 1 {
+                if vm.set_program(&crate::exec::REFUSED_PROG, (0, 8)).is_ok() {
+                    return Err("the refused placeholder program was accepted".into());
+                }
+            }
             match c.engine {
                 Engine::Jit => vm.jit_compile()?,
                 #[cfg(feature = "std")]
